@@ -12,7 +12,7 @@ import (
 )
 
 func init() {
-	props["C17"] = &propDef{run: runC17, explanation: "Partial. Decided statically: (P1) ResolveDocument succeeds only across the true edge of strings.HasPrefix(did, namespace + \":\") with the handler's own namespace field — the delimiter is part of the gate; (D1) no function reachable from VDR.Create / Client.CreateDID / the request builders iterates a map with an order-sensitive effect (append/indexed store that survives the loop without a sort, string accumulation, first-match return): DID creation cannot depend on Go's map iteration order; (G1) parseInitialState accepts only on the false edge of b64(JCS(decoded create request)) != supplied initial state, where the request is decoded from the base64url-decoded parameter; ParseDID splits the long form at the last ':'; resolveRequestWithInitialState accepts only across Parse(namespace, initial bytes) (full non-batch validation, C07) and the false edge of suffix != parsed suffix; short-form DIDs (no create request) and DIDs with fewer than three parts are refused; (P2) unpublished transformation info and GetCreateResult wiring. Not decided: that the document read back equals the document created (did-go parsing, behavioural). ProcessOperation: the initial state of the returned DID is b64url(JCS(request bytes)) and its suffix the parsed operation's. (T1) creation maps each verification relationship to the key purpose of the same name (switch or table form). (D2) random key generation in the creation call tree runs only on the edge 'the key option is absent'. The parser's acceptance rules (C07) run inside this check; no equivalent id of an unpublished document carries the initial state. The requested suffix is the last segment verbatim; the raw-document builder rules of C08 and the published-ids rule run here too. (D3) dochandler.New receives did: + the configured method, read after the options; both transformer steps precede every accepting exit. All of C10 and the JCS rules run inside this check; GetCreateResult hands on the applier's model; relationship lists do not share storage."}
+	props["C17"] = &propDef{extraPkgs: []string{jsonPatchPkg}, run: runC17, explanation: "Partial. Decided statically: (P1) ResolveDocument succeeds only across the true edge of strings.HasPrefix(did, namespace + \":\") with the handler's own namespace field — the delimiter is part of the gate; (D1) no function reachable from VDR.Create / Client.CreateDID / the request builders iterates a map with an order-sensitive effect (append/indexed store that survives the loop without a sort, string accumulation, first-match return): DID creation cannot depend on Go's map iteration order; (G1) parseInitialState accepts only on the false edge of b64(JCS(decoded create request)) != supplied initial state, where the request is decoded from the base64url-decoded parameter; ParseDID splits the long form at the last ':'; resolveRequestWithInitialState accepts only across Parse(namespace, initial bytes) (full non-batch validation, C07) and the false edge of suffix != parsed suffix; short-form DIDs (no create request) and DIDs with fewer than three parts are refused; (P2) unpublished transformation info and GetCreateResult wiring. Not decided: that the document read back equals the document created (did-go parsing, behavioural). ProcessOperation: the initial state of the returned DID is b64url(JCS(request bytes)) and its suffix the parsed operation's. (T1) creation maps each verification relationship to the key purpose of the same name (switch or table form). (D2) random key generation in the creation call tree runs only on the edge 'the key option is absent'. The parser's acceptance rules (C07) run inside this check; no equivalent id of an unpublished document carries the initial state. The requested suffix is the last segment verbatim; the raw-document builder rules of C08 and the published-ids rule run here too. (D3) dochandler.New receives did: + the configured method, read after the options; both transformer steps precede every accepting exit. All of C10 and the JCS rules run inside this check; GetCreateResult hands on the applier's model; relationship lists do not share storage."}
 }
 
 // mapRangeOrderEffects reports order-sensitive effects of map iterations in f.
@@ -751,6 +751,63 @@ func runC17(c *Ctx) {
 		c.Unresolved("C17.P2", "docutil.GetCreateResult")
 	}
 	c.Min("C17.P2", 7)
+	// an option that Create applies once per element of the supplied document (one call per URI, service, key, inside a
+	// loop) has to accumulate: its closure extends the options' list (opts.F = append(opts.F, …)) — an option that sets
+	// the list keeps the last element only
+	if create := c.Method("vdr/sidetreelongform", "VDR", "Create"); create != nil {
+		n := 0
+		var bad []string
+		seenOpt := map[*ssa.Function]bool{}
+		for _, h := range append([]*ssa.Function{create}, c.helpersOf(create, 1)...) {
+			for _, l := range naturalLoops(h) {
+				for b := range l.blocks {
+					for _, in := range b.Instrs {
+						cl, ok := in.(*ssa.Call)
+						if !ok {
+							continue
+						}
+						g := cl.Call.StaticCallee()
+						if g == nil || !strings.HasPrefix(pkgPathOf(g), modPkg+"vdr/sidetreelongform/sidetree/option/") || !strings.HasPrefix(g.Name(), "With") || seenOpt[g] {
+							continue
+						}
+						seenOpt[g] = true
+						n++
+						for _, lit := range g.AnonFuncs {
+							if len(lit.Params) != 1 {
+								continue
+							}
+							accumulates := false
+							forEachInstr(lit, func(i2 ssa.Instruction) {
+								st, isS := i2.(*ssa.Store)
+								if !isS {
+									return
+								}
+								fa, isFA := st.Addr.(*ssa.FieldAddr)
+								if !isFA || fa.X != ssa.Value(lit.Params[0]) {
+									return
+								}
+								if ap, isC := st.Val.(*ssa.Call); isC {
+									if bi, isB := ap.Call.Value.(*ssa.Builtin); isB && bi.Name() == "append" {
+										if ld, isLd := ap.Call.Args[0].(*ssa.UnOp); isLd && ld.Op == token.MUL {
+											if fa0, isFA0 := ld.X.(*ssa.FieldAddr); isFA0 && fa0.X == fa.X && fa0.Field == fa.Field {
+												accumulates = true
+											}
+										}
+									}
+								}
+							})
+							if !accumulates {
+								bad = append(bad, c.pos(cl.Pos())+": "+short(g.String())+" is applied once per element but does not extend the options' list")
+							}
+						}
+					}
+				}
+			}
+		}
+		c.Check("C17.P2", "per-element-options-accumulate", n >= 2 && len(bad) == 0, create.Pos(), fmt.Sprintf("%d option(s) applied per element of the supplied document; each extends its list", n), bad...)
+	} else {
+		c.Unresolved("C17.P2", "(*VDR).Create")
+	}
 	c.Assume("default update/recovery key generation (crypto/rand) happens only when the caller supplies no key; did-go document parsing and serialisation are outside the claim")
 	// a long-form DID is resolved by handing its initial state to the operation parser: what the parser accepts (and
 	// the limits it applies, each to the thing it is defined on) is part of "every DID Create hands out resolves"
